@@ -300,6 +300,7 @@ func (in *Interp) ensureInit(p *ssa.Package) {
 			return
 		}
 	}
+	p.Build() // the package may not have been built yet (nothing called into it)
 	initFn := p.Func("init")
 	if initFn == nil || initFn.Blocks == nil {
 		return
